@@ -166,17 +166,18 @@ def sockhFam : Family SockH Unit Unit where
   op f s _ h := sockhAddCtx f s h
   destroy := sockhDestroy
   ownM := SockH.owned
-  ownF := zeroFd
+  ownF := SockH.ownedFd
   wf := SockH.wf
   dead o := o = {}
 
 theorem sockhFam_laws : Laws sockhFam where
   init_ok f _ h := init_law (sockhInit_contract f h) ⟨rfl, rfl, nc_empty_wf, rfl⟩
-    (by simp [sockhFam, SockH.owned, NC.owned, NPool.owned, MPool.owned, Cell.owned]) rfl rfl
+    (by simp [sockhFam, SockH.owned, NC.owned, NPool.owned, MPool.owned, Cell.owned])
+    (by simp [sockhFam, SockH.ownedFd]) rfl
   op_ok f s _ h hw := (sockhAddCtx_contract f s h hw).weak
   destroy_live s h hw := by
     obtain ⟨h', hr, hm, hf, hi⟩ := sockhDestroy_wf s h hw
-    exact ⟨_, h', hr, hm, by simp [sockhFam, zeroFd, hf], hi⟩
+    exact ⟨_, h', hr, hm, hf, hi⟩
   destroy_dead s h hd := by
     have : s = {} := hd
     subst this
